@@ -64,28 +64,43 @@ def gen_table():
     return rc, out.strip()
 
 
-def source_tie(run, poisson=False):
-    """Regenerate coq/gen/SrcGen.v (mz.rs, constants) -- and with poisson=True coq/gen/PoissonGen.v (the four functions of
-    poisson.rs, loops included) -- from the current source and check in the kernel that the hand-written models ARE those
-    translations (SrcTie.v by reflexivity, PoissonTie.v by loop-invariant lemmas).  Returns True when established.  A refusal
-    or a mismatch is not a violation by itself (a harmless rewrite can cause it): the differential correspondence remains the
-    tie and is then searched 5x deeper."""
-    def one(script, target, what):
-        rc, out, _ = sh([sys.executable, os.path.join(VERIF, "tools", script)], cwd=VERIF, timeout=120)
-        detail = out.strip().splitlines()[-1] if out.strip() else ""
-        ok = rc == 0
-        if ok:
+SOURCE_TIES = {
+    "mz": ("gen_src.py", "proofs/SrcTie.vo",
+           "coq/model/Mz.v (PROTON, mass_charge_ratio, neutral_mass) and Poisson.v's NEUTRON_SHIFT / LAMBDA_FACTOR are definitionally the "
+           "translation of the current src/mz.rs and poisson.rs constants (tools/gen_src.py -> coq/gen/SrcGen.v; proofs/SrcTie.v, reflexivity)"),
+    "poisson": ("gen_poisson.py", "proofs/PoissonTie.vo",
+                "coq/model/Poisson.v's poisson_approximation(_impl) and poisson_n(_impl) equal, for every numeric interpretation and all "
+                "arguments, the state-passing translation of the current src/isotopic_pattern/poisson.rs (tools/gen_poisson.py -> "
+                "coq/gen/PoissonGen.v; proofs/PoissonTie.v)"),
+    "convolution": ("gen_conv.py", "proofs/ConvTie.vo",
+                    "coq/model/Conv.v's convolve_with and convolve_pow equal the translation of the current convolution.rs functions of the "
+                    "same names (out-parameters as results, the doubling `while` with proved-sufficient fuel; tools/gen_conv.py -> "
+                    "coq/gen/ConvGen.v; proofs/ConvTie.v)"),
+    "peak": ("gen_peak.py", "proofs/PeakTie.vo",
+             "coq/model/Peak.v's total, scale_by, normalize, shift, clone_shifted, truncate_after, ignore_below, fused, clone_drop_last, "
+             "slice_normalized and peak_eq equal the translation of the current peak.rs methods (tools/gen_peak.py -> coq/gen/PeakGen.v; "
+             "proofs/PeakTie.v)"),
+}
+
+
+def source_tie(run, parts=("mz",)):
+    """Regenerate the Gallina translation of the named source files from the CURRENT /repo and re-check in the kernel that the
+    hand-written models ARE those translations (for every numeric interpretation and all arguments).  Returns True when all are
+    established.  A refusal or a mismatch is not a violation by itself (a harmless rewrite can cause it): the differential
+    correspondence remains the tie and is then searched 5x deeper."""
+    res = {}
+    for k in parts:
+        script, target, what = SOURCE_TIES[k]
+        rc, out, _ = sh([sys.executable, os.path.join(VERIF, "tools", script)], cwd=VERIF, timeout=300)
+        lines = [l for l in out.strip().splitlines() if l.strip()]
+        detail = lines[-1] if lines else ""
+        ok = rc == 0 and "skipped " not in out.replace("0 skipped", "")
+        if rc == 0:
             rc2, out2, _ = make([target])
-            ok = rc2 == 0
-            if not ok:
+            if rc2 != 0:
+                ok = False
                 detail = "%s no longer checks: " % target + "\n".join(out2.strip().splitlines()[-6:])
-        return {"established": ok, "what": what, "detail": detail}
-    res = {"mz": one("gen_src.py", "proofs/SrcTie.vo", "coq/model/Mz.v (PROTON, mass_charge_ratio, neutral_mass) and Poisson.v's NEUTRON_SHIFT / LAMBDA_FACTOR "
-                     "are definitionally the translation of the current src/mz.rs and poisson.rs constants (tools/gen_src.py)")}
-    if poisson:
-        res["poisson"] = one("gen_poisson.py", "proofs/PoissonTie.vo", "coq/model/Poisson.v's poisson_approximation(_impl) and poisson_n(_impl) equal, for every "
-                             "numeric interpretation and all arguments, the state-passing translation of the current src/isotopic_pattern/poisson.rs "
-                             "(tools/gen_poisson.py -> coq/gen/PoissonGen.v; proofs/PoissonTie.v)")
+        res[k] = {"established": ok, "what": what, "detail": detail[-600:]}
     run.cov["source_level_tie"] = res
     ok = all(r["established"] for r in res.values())
     for k, r in res.items():
